@@ -358,4 +358,49 @@ theorem key_check_verdict_refines (N : ℕ) (hN : 1 < N) (H : List ByteArray →
 
 end keyproof_executable
 
+
+section blinded_executable
+
+/-- **the blinded-secrets proof is complete in the executable group**: `blinded_proof_complete`
+transferred along `Zn.znOps_refines`: holder and issuer both computing with integers modulo `N`
+(what the issuance streams run), the honest holder's proof is accepted. -/
+theorem blinded_proof_complete_executable (N : ℕ) (hN : 1 < N) (H : List ByteArray → ℤ)
+    (pk : PubKey ℤ) (pk' : PubKey (Zn.U N)) (hpk : PKRel (Zn.Rel N) pk pk')
+    (hiddenKeys : List String) (rf : String → Zn.U N) (val : String → ℤ) (vPrime : ℤ)
+    (tp : BlindTape) (nonce : ByteArray) (hr : Maps pk'.r hiddenKeys rf) :
+    let hidden : Values := hiddenKeys.map fun k => (k, val k)
+    ∃ u p, blindU (Zn.znOps N) pk hidden vPrime = .ok u ∧
+      newBlindedProof (Zn.znOps N) H pk u hidden vPrime tp nonce = .ok p ∧
+      checkBlinded (Zn.znOps N) H pk ⟨u, hiddenKeys, []⟩ p nonce = .ok true := by
+  intro hidden
+  have ho := Zn.znOps_refines hN
+  obtain ⟨u', p, h1, h2, h3⟩ := blinded_proof_complete (Zn.encU N) H pk' hiddenKeys rf val vPrime tp
+    nonce hr
+  have r1 := blindU_rel ho hpk hidden vPrime
+  rw [h1] at r1
+  cases hb : blindU (Zn.znOps N) pk hidden vPrime with
+  | ok u =>
+    rw [hb] at r1
+    have hu : Zn.Rel N u u' := r1
+    refine ⟨u, p, rfl, ?_, ?_⟩
+    · rw [newBlindedProof_rel ho H hpk hu]; exact h2
+    · have hbr : BlindedRel (Zn.Rel N) (⟨u, hiddenKeys, []⟩ : Blinded ℤ)
+          (⟨u', hiddenKeys, []⟩ : Blinded (Zn.U N)) := ⟨hu, rfl, List.Forall₂.nil⟩
+      rw [checkBlinded_rel ho H hpk hbr]
+      exact h3
+  | err => rw [hb] at r1; exact absurd r1 (by simp [ORel])
+  | panic => rw [hb] at r1; exact absurd r1 (by simp [ORel])
+
+/-- **the issuer's verdict on ANY blinded-secrets message does not depend on the
+representation**: for every `u`, commitments and proof document (honest or forged) whose group
+elements are units, the executable check and the proof-group check agree -/
+theorem issuer_blinded_verdict_refines (N : ℕ) (hN : 1 < N) (H : List ByteArray → ℤ)
+    (pk : PubKey ℤ) (pk' : PubKey (Zn.U N)) (hpk : PKRel (Zn.Rel N) pk pk')
+    (b : Blinded ℤ) (b' : Blinded (Zn.U N)) (hb : BlindedRel (Zn.Rel N) b b')
+    (p : BlindedProof) (nonce : ByteArray) :
+    checkBlinded (Zn.znOps N) H pk b p nonce = checkBlinded (addOps (Zn.encU N)) H pk' b' p nonce :=
+  checkBlinded_rel (Zn.znOps_refines hN) H hpk hb p nonce
+
+end blinded_executable
+
 end CL.C05
